@@ -241,7 +241,8 @@ MUTANTS = [('or_last', ('Result', 'ShortCircuit'), dict(Depth=1, Wide='FALSE')),
            ('required_constant_allowed', ('CtorLaw',), dict(Depth=1, Wide='FALSE')),
            ('or_remembers_branch', ('HistoryFree',), dict(Depth=1, Wide='FALSE')),                          # specs carry no memory
            ('default_aliased', ('HistoryFree',), dict(Depth=1, Wide='FALSE')),            # defaults are built afresh
-           ('default_not_evaluated', ('Result', 'Decides'), dict(Depth=1, Wide='FALSE'))]  # defaults are argument values (T resolved)                        # Optional / Required construction
+           ('default_not_evaluated', ('Result', 'Decides'), dict(Depth=1, Wide='FALSE')),  # defaults are argument values (T resolved)
+           ('check_validator_default_raw', ('Result', 'HistoryFree'), dict(Depth=1, Wide='FALSE'))]   # Check's default on the validator path (historic)                        # Optional / Required construction
 
 
 def main(tier, seed):
@@ -304,6 +305,8 @@ def main(tier, seed):
         'when every child of an Or fails, a MatchError or any child\'s own error class is permitted (the docstring says '
         'MatchError, the property lets child errors propagate as themselves)',
         'Switch(default=) covers "no case matched" only (documented); the failure of the value spec of the matching case propagates',
+        'defaults that are instances of dict / list subclasses (OrderedDict ...) are outside the universe: argument mode '
+        'rebuilds exact builtin containers only, by design',
         'validators of Check are not part of the call-log law (the documentation does not order or short-circuit them)',
         'the Match wrapper is only at the root, so the C08 mode leak through chain_child is not involved',
         'strings from {"", a, b, aa, ab, ba, bb}; TLC, the Json community module and the codec are trusted']
